@@ -43,7 +43,7 @@ m = {
         "name": "dnsverif",
         "path": "/verif/checker",
         "serves_properties": sorted(CLAIMED),
-        "kind_free_text": "repository-specific static analyser (Go, golang.org/x/tools v0.50.0: go/packages, go/types, go/ast, go/ssa, dominators, call graph); rules instantiated from /repo's own struct tags, registries and interfaces and compared with independent RFC tables",
+        "kind_free_text": "repository-specific static analyser (Go, golang.org/x/tools v0.50.0: go/packages, go/types, go/ast, go/ssa, dominators, call graph); rules instantiated from /repo's own struct tags, registries and interfaces and compared with independent RFC tables; before the rules run the analysed copy is normalised (helpers, local closures and table loops the pinned tree does not have are written back / written out; method-function conversions and renames keep their anchors), path facts are refined through tests of merged values, a linear bounds prover with memory versions, bit provenance, and finite-domain abstract execution over octet / token / algorithm classes",
     }],
     "checks": checks,
     "not_applicable": [{"property_id": p, "reason": NOT_APPLICABLE[p]} for p in sorted(NOT_APPLICABLE)],
